@@ -580,6 +580,15 @@ fn main() {
                                 TextEdit { start: at, old_end: at, ins: rng.pick(&[&b" "[..], &b"\n"[..], &b"\n  "[..]]).to_vec() }
                             }
                         }
+                        // delete 1-3 consecutive tokens (changes what FOLLOWS the preceding subtree)
+                        6 => match probe.parse(&cur, None).map(|t| leaves(&t)) {
+                            Some(ls) if !ls.is_empty() => {
+                                let i = rng.below(ls.len());
+                                let j = (i + rng.range(0, 2)).min(ls.len() - 1);
+                                TextEdit { start: ls[i].1, old_end: ls[j].2, ins: vec![] }
+                            }
+                            _ => random_edit(&mut rng, &cur, &bounds, &alpha_refs),
+                        },
                         // back to the original document (out of an erroneous intermediate state)
                         4 if cur != text => diff_edit(&cur, &text),
                         // towards a freshly derived sentence
